@@ -26,12 +26,10 @@ extern "C" void vf_main() {
 #else
       vf_check(g_cnt[i][0] == (produced ? 1 : 0), "the generator produced an item twice / an item that does not exist");
       for (int k = 1; k <= VF_NST; ++k) {
-        bool reaches = produced && !(VF_FILTER != 0 && k > VF_FILTER && ((g_dropMask >> i) & 1));
-        if (reaches) {
-          vf_check(g_cnt[i][k] == 1, "pipeline() returned but an unfiltered item has not passed a stage exactly once");
-        } else {
-          vf_check(g_cnt[i][k] == 0, "a filtered or non-existent item passed a stage");
-        }
+        // (branch-free on purpose: in path-exploration mode every branch on symbolic data forks a path)
+        uint32_t reaches = (uint32_t)produced & (uint32_t)!(VF_FILTER != 0 && k > VF_FILTER && ((g_dropMask >> i) & 1));
+        vf_check(g_cnt[i][k] >= reaches, "pipeline() returned but an unfiltered item has not passed a stage");
+        vf_check(g_cnt[i][k] <= reaches, "an item passed a stage twice, or a filtered / non-existent item passed a stage");
       }
 #endif
     }
